@@ -33,6 +33,7 @@ import Sds.Proofs.GenEqBv
 import Sds.Proofs.GenEqLoop2
 import Sds.Proofs.GenEqConstr
 import Sds.Proofs.GenEqConstr2
+import Sds.Proofs.IterBridge
 
 namespace Sds.C01
 open Sds Outcome IterProofs
@@ -429,5 +430,13 @@ theorem select_support_new_as_translated_any_positions (m : Mode) (len : Nat) (p
     (hs : pos.toList.Pairwise (· < ·)) (hlt : ∀ x, x ∈ pos.toList → x < len) (hlen : len * 64 + 127 < U64) :
     Generated.gen_SelectSupport_new m len pos.size (GenEq.enumerate pos) = ok (SelSup.build len pos) :=
   GenEq.select_support_new_eq m len pos hs hlt hlen
+
+/-- … and with the list step discharged (`Proofs/IterBridge.lean`): for ANY list `l` that simulates the freshly created
+iterator (`Sim`: the relation preserved by the translated `next` / `nth`, `GenEq.gen_next_sim` / `gen_nth_sim`), the
+translated `SelectSupport::new` fed with `l` builds the model's support -/
+theorem select_support_new_from_the_real_iterator {b : BitVector} (g : GenEq.Good b) (tr : Tr) (m : Mode)
+    (hlen : b.data.len * 64 + 127 < U64) {l : List (Nat × Nat)} (h : GenEq.Sim tr b (OneIterSt.full tr b) l) :
+    Generated.gen_SelectSupport_new m b.len (b.countT tr) l = ok (SelSup.build b.len (positionsT tr b.data)) :=
+  GenEq.select_support_new_via_iter g tr m hlen h
 
 end Sds.C01
